@@ -60,6 +60,11 @@ type PureFn struct {
 	PTypes []string
 	Body   *Clause
 	Pkg    string
+	// opaque predicate: applied to a quantified argument it stays an uninterpreted function
+	// of its arguments and of the values of its declared footprint (Reads); applied to ground
+	// arguments its definition is unfolded. The footprint is checked (obligation "footprint").
+	Opaque bool
+	Reads  []*Clause
 }
 
 type GhostField struct {
@@ -114,7 +119,7 @@ var keywords = map[string]bool{
 	"func": true, "requires": true, "ensures": true, "modifies": true, "trusted": true,
 	"inline": true, "maypanic": true, "panic_ensures": true, "loop": true, "pure": true,
 	"ghost": true, "axiom": true, "witness": true, "replay": true, "assert": true,
-	"nonilcheck": true, "props": true, "nilable": true, "crash_inv": true, "view": true,
+	"nonilcheck": true, "props": true, "nilable": true, "crash_inv": true, "view": true, "opaque": true, "ghostcode": true,
 }
 
 type directive struct {
@@ -305,8 +310,9 @@ func (s *Specs) ParseFile(path, pkgPath string) error {
 			default:
 				return fmt.Errorf("%s:%d: unknown loop clause %q", d.file, d.line, f[1])
 			}
-		case "pure":
+		case "pure", "opaque":
 			// pure Name(a T, b U) = expr
+			// opaque Name(a T) bool reads e1, e2 = expr
 			i := strings.Index(d.rest, "=")
 			// find the first '=' that is not part of ==, <=, >=, != : it follows the ")" of the header
 			hdrEnd := strings.Index(d.rest, ")")
@@ -322,6 +328,23 @@ func (s *Specs) ParseFile(path, pkgPath string) error {
 			op := strings.Index(hdr, "(")
 			name := strings.TrimSpace(hdr[:op])
 			pf := &PureFn{Name: name, Pkg: pkgPath}
+			if d.kw == "opaque" {
+				pf.Opaque = true
+				mid := d.rest[hdrEnd+1 : hdrEnd+j]
+				ri := strings.Index(mid, "reads")
+				if ri < 0 {
+					return fmt.Errorf("%s:%d: opaque %s needs a reads clause", d.file, d.line, name)
+				}
+				for _, r := range splitTop(mid[ri+len("reads"):], ',') {
+					if r = strings.TrimSpace(r); r != "" {
+						rc, err := mk(r)
+						if err != nil {
+							return err
+						}
+						pf.Reads = append(pf.Reads, rc)
+					}
+				}
+			}
 			for _, p := range splitTop(hdr[op+1:len(hdr)-1], ',') {
 				p = strings.TrimSpace(p)
 				if p == "" {
